@@ -4,6 +4,9 @@ from contracts import formulas as F
 from contracts import wrappers as W
 from contracts import core as K
 from contracts import grammar as G_PF
+from contracts import formulas as F_DEP
+from contracts import density as D_DEP
+from contracts import core as K_DEP
 ID = "C12"
 LEVEL = "proof"
 TRUSTED = ["A1 real arithmetic", "A3 builtins", "A5 attribute resolution", "A6 solvers"]
@@ -11,14 +14,15 @@ EXPLANATION = ('Deductive: natural_mass_ratio (loop over atoms cut at two SumOve
 
 
 def units(tier):
-    return (([F.U_ION_MASS, F.U_NAT_RATIO, F.U_NATDENS_GET, F.U_NATDENS_SET] + F.U_INIT + F.U_CELL_VOLUME + [F.U_CELL_VOLUME_MISSING] + F.U_VOLUME + [F.U_SUBSTITUTION] + F.U_FORMULA_OF_FORMULA) + W.U_FORMULA_REPLACE) + [K.L_ATOM_IDENTITY] + F.U_FORMULA_KINDS_NATURAL + F.U_FORMULA_STRING + G_PF.U_PARSE_FORMULA
+    return (([F.U_ION_MASS, F.U_NAT_RATIO, F.U_NATDENS_GET, F.U_NATDENS_SET] + F.U_INIT + F.U_CELL_VOLUME + [F.U_CELL_VOLUME_MISSING] + F.U_VOLUME + [F.U_SUBSTITUTION] + F.U_FORMULA_OF_FORMULA) + W.U_FORMULA_REPLACE) + [K.L_ATOM_IDENTITY] + F.U_FORMULA_KINDS_NATURAL + F.U_FORMULA_STRING + G_PF.U_PARSE_FORMULA + ([F_DEP.U_COUNT_ATOMS, F_DEP.U_ATOMS]) + ([D_DEP.U_DENSITY_EL, D_DEP.U_DENSITY_ISO, K_DEP.L_REGISTRATION])
 
 
 def runner_tasks(tier):
     return [{"module": "c12", "task": "density", "kind": "bounded", "clause": "density / natural density by keyword, attribute, tag"},
             {"module": "c12", "task": "replace", "kind": "bounded", "clause": "substitution"},
             {"module": "c12", "task": "volume", "kind": "bounded", "clause": "volume estimates"},
-            {"module": "stateful", "task": "C12", "name": "stateful", "kind": "bounded", "clause": "assignment order density / natural density on one object; single-atom default density in every spelling; keyword for every initializer kind; private tables with customised masses"}]
+            {"module": "stateful", "task": "C12", "name": "stateful", "kind": "bounded", "clause": "assignment order density / natural density on one object; single-atom default density in every spelling; keyword for every initializer kind; private tables with customised masses"},
+            {"module": "independence", "task": "observations", "name": "independence", "kind": "bounded", "arg": {"tags": ["C12"]}, "clause": "fixed observations give the same value as the first use of the library in a fresh interpreter, in a warmed-up interpreter (twice) and in reverse order, and have their documented value", "timeout": 900}]
 
 
 REPLAY = {'module': 'c12', 'task': 'replay'}
